@@ -366,7 +366,8 @@ pub fn race_program_strategy() -> BoxedStrategy<RaceProgram> {
     (
         any::<bool>(),
         any::<bool>(),
-        24u16..64,
+        // from devices that run full (flush answers OutOfSpace, retirements run to make room) to roomy ones
+        prop_oneof![2 => 5u16..24, 3 => 24u16..64],
         proptest::collection::vec(proptest::bool::weighted(0.25), 1..5),
         proptest::collection::vec(proptest::collection::vec(rop, 6..40), 1..4),
         prop_oneof![Just(0u16), Just(50), Just(400), Just(3000)],
